@@ -208,7 +208,9 @@ struct SIMDVector {
     template<typename U>
     FASTOR_INLINE SIMDVector<U,ABI> cast() {
         SIMDVector<U,ABI> out;
-        for (FASTOR_INDEX i=0; i<Size;++i) {
+        // for width based ABIs the result has a different number of lanes when sizeof(U) != sizeof(T)
+        constexpr FASTOR_INDEX NumLanes = Size < SIMDVector<U,ABI>::Size ? Size : SIMDVector<U,ABI>::Size;
+        for (FASTOR_INDEX i=0; i<NumLanes;++i) {
             out.value[i] = static_cast<U>(value[i]);
         }
         return out;
